@@ -27,6 +27,7 @@ func init() { props["C07"] = genC07 }
 var c07Keyspaces = []string{"ks1", "KS1", "Ks1", "\"ks1\"", "\"Ks1\"", "\"KS1\"", "other", "\"with \"\"q\"\"\"", "system_auth", "x_y_z"}
 
 func genC07(ctx *Ctx) {
+	hsPhase(ctx)
 	r := ctx.Rng
 	prefix, port := px.Alloc()
 	be := fb.New(prefix, port)
